@@ -79,7 +79,7 @@ def run(ctx, rep):
                 ncast += 1
                 dl = st_['place']['local']
                 uses = uses_of(f, dl)
-                ok = all(u in ('BitAnd', 'BitOr', 'Shr', 'Shl', 'cast', 'Eq', 'Ne', 'copy') for u in uses) and uses
+                ok = all(u in ('BitAnd', 'BitOr', 'Shr', 'Shl', 'cast', 'Eq', 'Ne', 'copy', 'call:object::Object::with_type') for u in uses) and uses
                 rep.ob(ok, 'R16.3', f.path, 'pointer->integer cast', 'the integer image of the word is only masked / shifted / compared for equality: uses %s' % sorted(set(uses)), span_loc(st_['span']))
             if rv['k'] == 'binop' and rv['lty'].startswith('*') and rv['op'] in ('Lt', 'Le', 'Gt', 'Ge', 'Offset', 'Sub'):
                 rep.bad('R16.3', f.path, 'raw pointer %s' % rv['op'], 'addresses are ordered / subtracted', span_loc(st_['span']))
